@@ -188,7 +188,7 @@ escape(struct scanner *s)
 			if (isodigit(s->chr))
 				nextchar(s);
 		}
-	} else if (strchr("'\"?\\abfnrtv", s->chr)) {
+	} else if (s->chr && strchr("'\"?\\abfnrtv", s->chr)) {
 		nextchar(s);
 	} else {
 		error(&s->loc, "invalid escape sequence");
@@ -208,6 +208,8 @@ charconst(struct scanner *s)
 		case '\'':
 			nextchar(s);
 			return TCHARCONST;
+		case '\0':
+			error(&s->loc, "null byte in character constant");
 		case '\n':
 			error(&s->loc, "newline in character constant");
 		case EOF:
@@ -232,6 +234,8 @@ stringlit(struct scanner *s)
 		case '"':
 			nextchar(s);
 			return TSTRINGLIT;
+		case '\0':
+			error(&s->loc, "null byte in string literal");
 		case '\n':
 			error(&s->loc, "newline in string literal");
 		case EOF:
